@@ -46,7 +46,7 @@ def replay(c):
     _, reset = gsp_util.load_replay(c)
     scen, trace = c.path("replay_scen.ndjson"), c.path("replay_trace.ndjson")
     with open(scen, "w") as f:
-        f.write(json.dumps({"lim": reset["lim"], "tight": reset.get("tight", False), "slow": reset.get("slow", False), "script": reset["script"]}) + "\n")
+        f.write(json.dumps({"lim": reset["lim"], "tight": reset.get("tight", False), "slow": reset.get("slow", False), "overlap": reset.get("overlap", False), "script": reset["script"]}) + "\n")
     c.vh(["gsp-seeder", scen, trace, -1])
     r = gsp_util.validate_many(c, "gsp", "SeederTrace", trace, parallel=1)
     return gsp_util.finish_replay(c, r, "BaseSeeder")
@@ -99,7 +99,7 @@ def run(c):
     trace = c.path("seeder_trace.ndjson")
     stats = json.loads(c.vh(["gsp-seeder", scen, trace, c.pick(10, 20)]).stdout)
     c.log("executed on the real BaseSeeder:", stats)
-    for g in ("send", "send_done", "send_empty", "resume", "open_while_three", "unregister", "tight", "slow"):
+    for g in ("send", "send_done", "send_empty", "resume", "open_while_three", "unregister", "tight", "slow", "overlapping_resume"):
         c.guard(g, stats.get(g, 0))
     r = gsp_util.validate_many(c, "gsp", "SeederTrace", trace, parallel=W, lines_per_piece=100000)
     c.log("seeder: %d scenarios, %d lines validated, %d rejections" % (r["scenarios"], r["validated_lines"], len(r["rejections"])))
@@ -123,7 +123,8 @@ def run(c):
              "chunks 0..2; unregister; limits n1/n2/s15), every single-peer script of one step more (chunks 0..1, limit n2), plus "
              "TLC-simulated scripts of %d steps, each executed on the real seeder "
              "with quiescence after every step; every 10th/20th script also with MaxPendingResponsesSize=5 and a slow SendChunk, another "
-             "10th/20th with MaxSenderTasks=1, doubled chunk counts and a 500us SendChunk (send lines are written on entry of SendChunk); "
+             "10th/20th with MaxSenderTasks=1, doubled chunk counts and a 500us SendChunk (send lines are written on entry of SendChunk), and a further 10th/20th like that but without waiting for "
+             "quiescence before a request that resumes the session of the step just before it; "
              "every recorded line validated against Seeder.tla" % (exh, rl),
         harness_stats=stats, samples=[gsp_util.head_lines(trace, 14)],
     ), assumptions=[
